@@ -348,12 +348,11 @@ def inject_stage(prop, tier, name):
     if r.returncode != 0:
         cur = "?"
         try:
-            inits = [l for l in open(nd) if '"init"' in l]
-            cur = json.loads(inits[-1]).get("scenario", "?") if inits else "?"
+            cur = open(nd + ".progress").read().strip() or "?"
         except Exception:
             pass
         res["violations"].append({"stage": name, "key": "crash-in-injection",
-                                  "errors": ["[crash] the process died (exit %s) in (or right after) the injected scenario: %s" % (r.returncode, cur)]})
+                                  "errors": ["[crash] the process died (exit %s%s) in the injected scenario: %s" % (r.returncode, ": an access to a released block or past the end of a block" if r.returncode == -11 else "", cur)]})
         return res
     lines = open(nd).read().splitlines()
     nscen = sum(1 for l in lines if '"init"' in l)
